@@ -29,5 +29,6 @@ def machine : Machine Unit Unit where
       | _, _, _ => ((), "FAIL:unparsable")
     | _ => ((), "FAIL:unparsable")
 
-def main : IO Unit := machine.run
 end Driver.C13
+
+def main : IO Unit := Driver.C13.machine.run
